@@ -195,19 +195,35 @@ Proof.
   - destruct t; inversion H; reflexivity.
   - (* arrays *)
     match type of H with (let* vs := ?G in _) = _ => destruct G end; simpl in H; [|discriminate].
-    destruct exp as [[| | | | | | | | |]|];
-      repeat match type of H with match ?c with _ => _ end = _ => destruct c end;
-      try discriminate; inversion H; reflexivity.
+    match type of H with (let* ty0 := ?G in _) = _ => destruct G as [[cs0 e0]|] end; simpl in H; [|discriminate].
+    match type of H with (if ?c then _ else _) = _ => destruct c end; [discriminate|].
+    inversion H; subst. destruct cs0; reflexivity.
   - (* dictionaries *)
-    match type of H with (let* vs := ?G in _) = _ => destruct G end; simpl in H; [|discriminate].
+    match type of H with (let* vs := ?G in _) = _ => destruct G as [kvs|] end; simpl in H; [|discriminate].
     destruct exp as [[| | | |k w| | | | |]|];
       try (repeat match type of H with
                   | match ?c with _ => _ end = _ => destruct c
                   | (if ?c then _ else _) = _ => destruct c
                   end; try discriminate; inversion H; reflexivity).
+    (* typed dictionary: the insertion loop returns the dictionary or an error *)
+    assert (G : forall l, (fix ins (l : list (ival * ival)) : res ival :=
+               match l with
+               | [] => Ok (IDict k w kvs)
+               | kv :: r =>
+                   if negb (is_sub_static D (dyn_type (fst kv)) k && is_sub_static D (dyn_type (snd kv)) w)
+                   then Err UserOther
+                   else if copy_fails (fst kv) || copy_fails (snd kv) then Err HostFail
+                   else ins r
+               end) l = Ok v -> v = IDict k w kvs).
+    { induction l0 as [|kv r IHr]; intro HH.
+      - inversion HH; reflexivity.
+      - destruct (negb (is_sub_static D (dyn_type (fst kv)) k && is_sub_static D (dyn_type (snd kv)) w)); [discriminate|].
+        destruct (copy_fails (fst kv) || copy_fails (snd kv)); [discriminate|]. apply IHr. exact HH. }
+    rewrite (G _ H). reflexivity.
   - (* composites *)
     destruct (negb (comp_declared E c)); [discriminate|].
     match type of H with (let* vs := ?G in _) = _ => destruct G end; simpl in H; [|discriminate].
+    match type of H with (if ?c then _ else _) = _ => destruct c end; [discriminate|].
     inversion H; reflexivity.
   - destruct b; inversion H; reflexivity.
   - discriminate.
@@ -252,14 +268,17 @@ Proof.
 Qed.
 
 (* ------------------------------------------------------------------ error class of rejections *)
-(* import fails with an internal error only where element-type inference fails *)
+(* import fails with an internal error only where element-type inference fails; its other failures are
+   user errors or the storage-layer copy error *)
+Definition ue (e : err) : Prop := e = UserOther \/ e = HostFail.
+
 Lemma go_list_user : forall (f : xval -> res ival) l e0,
-  Forall (fun y => forall e, f y = Err e -> e = UserOther) l ->
+  Forall (fun y => forall e, f y = Err e -> ue e) l ->
   (fix go (l : list xval) : res (list ival) :=
      match l with
      | [] => Ok []
      | y :: r => let* v := f y in let* vs := go r in Ok (v :: vs)
-     end) l = Err e0 -> e0 = UserOther.
+     end) l = Err e0 -> ue e0.
 Proof.
   induction l as [|y r IH]; intros e0 HF HE; [discriminate|].
   inversion HF as [|? ? Hy Hr]; subst.
@@ -270,13 +289,13 @@ Proof.
 Qed.
 
 Lemma go_pairs_user : forall (f1 f2 : xval -> res ival) l e0,
-  Forall (fun p => (forall e, f1 (fst p) = Err e -> e = UserOther) /\
-                   (forall e, f2 (snd p) = Err e -> e = UserOther)) l ->
+  Forall (fun p => (forall e, f1 (fst p) = Err e -> ue e) /\
+                   (forall e, f2 (snd p) = Err e -> ue e)) l ->
   (fix go (l : list (xval * xval)) : res (list (ival * ival)) :=
      match l with
      | [] => Ok []
      | (a, b) :: r => let* k := f1 a in let* w := f2 b in let* rest := go r in Ok ((k, w) :: rest)
-     end) l = Err e0 -> e0 = UserOther.
+     end) l = Err e0 -> ue e0.
 Proof.
   induction l as [|[a b] r IH]; intros e0 HF HE; [discriminate|].
   inversion HF as [|? ? Hx Hr]; subst. simpl in Hx. destruct Hx as [Hx Hy].
@@ -289,12 +308,12 @@ Proof.
 Qed.
 
 Lemma go_fields_user : forall (f : nat -> xval -> res ival) l acc e0,
-  Forall (fun p => forall n e, f n (snd p) = Err e -> e = UserOther) l ->
+  Forall (fun p => forall n e, f n (snd p) = Err e -> ue e) l ->
   (fix go (l : list (nat * xval)) (acc : list (nat * ival)) : res (list (nat * ival)) :=
      match l with
      | [] => Ok acc
-     | (n, y) :: r => let* v := f n y in go r (set_field n v acc)
-     end) l acc = Err e0 -> e0 = UserOther.
+     | (n, y) :: r => let* v := f n y in go r (acc ++ [(n, v)])
+     end) l acc = Err e0 -> ue e0.
 Proof.
   induction l as [|[n y] r IH]; intros acc e0 HF HE; [discriminate|].
   inversion HF as [|? ? Hy Hr]; subst. simpl in Hy.
@@ -303,19 +322,40 @@ Proof.
   - inversion HE; subst. eapply Hy. exact Ey.
 Qed.
 
+Lemma ins_user : forall k w (kvs l : list (ival * ival)) e0,
+  (fix ins (l : list (ival * ival)) : res ival :=
+     match l with
+     | [] => Ok (IDict k w kvs)
+     | kv :: r =>
+         if negb (is_sub_static D (dyn_type (fst kv)) k && is_sub_static D (dyn_type (snd kv)) w)
+         then Err UserOther
+         else if copy_fails (fst kv) || copy_fails (snd kv) then Err HostFail
+         else ins r
+     end) l = Err e0 -> ue e0.
+Proof.
+  induction l as [|kv r IH]; intros e0 HE; [discriminate|].
+  destruct (negb (is_sub_static D (dyn_type (fst kv)) k && is_sub_static D (dyn_type (snd kv)) w)).
+  - inversion HE; left; reflexivity.
+  - destruct (copy_fails (fst kv) || copy_fails (snd kv)).
+    + inversion HE; right; reflexivity.
+    + apply IH. exact HE.
+Qed.
+
 Lemma import_err_user : forall x exp e,
-  (forall ts, lcs ts <> None) -> import E lcs x exp = Err e -> e = UserOther.
+  (forall ts, lcs ts <> None) -> import E lcs x exp = Err e -> ue e.
 Proof.
   intros x exp e TOT. revert exp e.
   induction x as [| |x IH|b|s|s|a|p n|d i|t|l IH|l IH|k c fs IH|b a i| |] using xval_ind';
     intros exp e0 HE; cbn [import] in HE; try discriminate.
   - destruct (import E lcs x match exp with Some (TOpt t) => Some t | _ => None end) eqn:EI; simpl in HE; [discriminate|].
     inversion HE; subst. eapply IH. exact EI.
-  - destruct t; [discriminate | inversion HE; reflexivity].
+  - destruct t; [discriminate | inversion HE; left; reflexivity].
   - (* arrays *)
     match type of HE with (let* vs := ?G in _) = _ => destruct G as [vs|e1] eqn:EG end; simpl in HE.
-    + destruct exp as [[| | | | | | | | |]|]; try discriminate;
-        (destruct (lcs (map dyn_type vs)) eqn:EL; [discriminate | exfalso; eapply TOT; exact EL]).
+    + match type of HE with (let* ty0 := ?G in _) = _ => destruct G as [[cs0 el0]|e1] eqn:ET end; simpl in HE.
+      * destruct (existsb copy_fails vs); [inversion HE; right; reflexivity | discriminate].
+      * exfalso. destruct exp as [[| | | | | | | | |]|]; try discriminate;
+          (destruct (lcs (map dyn_type vs)) eqn:EL; [discriminate | eapply TOT; exact EL]).
     + inversion HE; subst.
       eapply (go_list_user (fun y => import E lcs y
                  match exp with Some (TVar e) => Some e | Some (TConst e _) => Some e | _ => None end)); [|exact EG].
@@ -323,27 +363,29 @@ Proof.
   - (* dictionaries *)
     match type of HE with (let* vs := ?G in _) = _ => destruct G as [kvs|e1] eqn:EG end; simpl in HE.
     + destruct exp as [[| | | |k w| | | | |]|];
-        repeat match type of HE with
+        try (repeat match type of HE with
                | match ?c with _ => _ end = _ => destruct c
                | (if ?c then _ else _) = _ => destruct c
-               end; try discriminate; inversion HE; reflexivity.
+               end; try discriminate; inversion HE; (left; reflexivity) || (right; reflexivity)).
+      eapply ins_user. exact HE.
     + inversion HE; subst.
       eapply (go_pairs_user
                 (fun y => import E lcs y match exp with Some (TDict k _) => Some k | _ => None end)
                 (fun y => import E lcs y match exp with Some (TDict _ w) => Some w | _ => None end)); [|exact EG].
       eapply Forall_impl; [|exact IH]. intros kv [H1 H2]. split; intros e1 He1; [eapply H1 | eapply H2]; exact He1.
   - (* composites *)
-    destruct (negb (comp_declared E c)); [inversion HE; reflexivity|].
-    match type of HE with (let* vs := ?G in _) = _ => destruct G as [fl|e1] eqn:EG end; simpl in HE; [discriminate|].
-    inversion HE; subst.
-    eapply (go_fields_user (fun n y => import E lcs y (lookup n (comp_fields E c)))); [|exact EG].
-    eapply Forall_impl; [|exact IH]. intros f Hf n e1 He1. eapply Hf. exact He1.
-  - destruct b; try (inversion HE; reflexivity); discriminate.
-  - inversion HE; reflexivity.
-  - inversion HE; reflexivity.
+    destruct (negb (comp_declared E c)); [inversion HE; left; reflexivity|].
+    match type of HE with (let* vs := ?G in _) = _ => destruct G as [fl|e1] eqn:EG end; simpl in HE.
+    + destruct (existsb (fun f => copy_fails (snd f)) fl); [inversion HE; right; reflexivity | discriminate].
+    + inversion HE; subst.
+      eapply (go_fields_user (fun n y => import E lcs y (lookup n (comp_fields E c)))); [|exact EG].
+      eapply Forall_impl; [|exact IH]. intros f Hf n e1 He1. eapply Hf. exact He1.
+  - destruct b; try (inversion HE; left; reflexivity); discriminate.
+  - inversion HE; left; reflexivity.
+  - inversion HE; left; reflexivity.
 Qed.
 
-(* if element-type inference never fails, every rejection is a user-level argument error *)
+(* if element-type inference never fails, no rejection is an internal error *)
 Theorem reject_user_error : forall T x,
   (forall ts, lcs ts <> None) -> validate E lcs T x <> Reject RInternal.
 Proof.
@@ -353,7 +395,7 @@ Proof.
   - destruct (importable E w); simpl in H; [|discriminate].
     destruct (is_sub_of_sema D (dyn_type w) T); simpl in H; [|discriminate].
     destruct (conforms E w); discriminate.
-  - rewrite (import_err_user _ _ _ TOT EI) in H. discriminate.
+  - destruct (import_err_user _ _ _ TOT EI) as [X|X]; subst e; discriminate.
 Qed.
 
 (* a number that does not fit its type is rejected by the decoder, wherever it occurs at the top *)
@@ -368,6 +410,14 @@ From CV Require Import C29.Cases.
 
 (* an empty array passed for an AnyStruct parameter: ImportValue raises errors.NewUnexpectedError,
    an internal error, although the input is merely a user-supplied argument *)
+(* a struct inside an inner [Word16], or an array inside the [Int8] field of S2: the storage-layer copy
+   error; the same shapes under [Int] are ordinary malformed-value rejections *)
+Theorem nested_simple_array_copy_error :
+  validate E0 lcs0 (TVar (TVar (TPrim PWord16))) (XArray [XArray [XComp KStruct 0 [(0%nat, XNum PInt 1)]]]) = Reject RCopy /\
+  validate E0 lcs0 (TVar (TVar (TPrim PInt))) (XArray [XArray [XComp KStruct 0 [(0%nat, XNum PInt 1)]]]) = Reject RMalformed /\
+  validate E0 lcs0 (TVar (TPrim PWord16)) (XArray [XComp KStruct 0 [(0%nat, XNum PInt 1)]]) = Reject RMalformed.
+Proof. vm_compute. repeat split. Qed.
+
 Theorem empty_array_internal :
   validate E0 lcs0 (TPrim PAnyStruct) (XArray []) = Reject RInternal /\
   validate E0 lcs0 (TVar (TPrim PAnyStruct)) (XArray [XArray []]) = Reject RInternal /\
